@@ -36,12 +36,20 @@ _c("C02",
    "Generator contract (independent draws uniform on k/2^53) is trusted; statistical runs at fixed seeds with a Bernstein budget are supporting evidence only. "
    "Partial: draws_pushforward_exact_partial, spec_iff_model_partial. Kosambi composition for non-adjacent markers not covered.")
 _c("C11",
-   "34 theorems (Props/C11.lean): Haldane/Kosambi zero, limit 1/2, range, (strict) monotonicity and both inverse directions over R on [0,inf]; pairwise distances symmetric, "
-   "zero diagonal, additive for ordered markers, +inf exactly across chromosomes, sequential = adjacent pairwise; interpolation returns stored positions at markers, is linear between, "
-   "order preserving on congruent maps, NaN exactly for absent chromosomes, independent of row order; xoprob definition. The literal numpy.unique loop and the searchsorted/clip "
-   "transcription are proved equal to their closed forms.",
-   "scipy interp1d entered through its transcribed formula (re-checked per case); libm exp/tanh compared at 1e-12; partial: gdist1 loop = closed form needs contiguous labels "
-   "(documented precondition), xoprob_range_partial.")
+   "86 theorems (Props/C11.lean): Haldane/Kosambi zero, limit 1/2, range, (strict) monotonicity, both inverse directions over R on [0,inf], "
+   "round-trip conditioning and the same laws under any monotone rounding; pairwise distances symmetric, zero diagonal, additive, +inf exactly across "
+   "chromosomes, sequential = adjacent pairwise, slice arguments = parts of the full arrays; interpolation at own markers, linear between flanking "
+   "markers, order preserving on congruent maps, NaN exactly for absent chromosomes, independent of row order (stored arrays incl. riding columns); "
+   "xoprob definition; both map classes (MapClassLaws). Operation histories: every object reachable through group/ungroup/reorder/sort/remove/select/"
+   "remove_discrepancies/build_spline/interp_genpos/re-assignment/interp_gmap has metadata describing its own arrays, the methods as written never "
+   "raise on it and equal their closed forms, a grouped one has sorted labels; closure of all laws under interp_gmap (D110 fixed in /repo, "
+   "pre-repair counterexample kept). Literal transcriptions proved equal to closed forms: numpy.unique loop of gdist1g, congruence() loop, "
+   "searchsorted/clip, three-pass lexsort and its argsort+fancy-index form in sort(). All four Spec oracles tied to the theorems "
+   "(accepts-model / exact-sound / iff).",
+   "scipy interp1d entered through its transcribed formula (re-checked per case); libm exp/log/tanh/atanh compared at 1e-12; quadratic/cubic splines, "
+   "the three large maps and the from_pandas/from_csv/from_egmap factories are checked against the Spec only (no Lean model). Partial: gdist1 loop = "
+   "closed form needs contiguous labels (documented precondition; proved for every constructed and every reachable grouped map; counterexample), "
+   "xoprob_range_partial (each hypothesis shown necessary), remove_discrepancies needs up to n passes (counterexample). No open finding.")
 _c("C13",
    "40 theorems (Props/C13.lean): molecular coancestry = twice mean IBS (allele-pair counting) for ploidy 1/2 and all sizes; VanRaden/Yang (as written, any sqrt)/weighted "
    "formulas entry by entry; symmetry; PSD in Gram form; commutation with any taxa index list (permutation, subset, repeats) for supplied frequencies incl. labels; kinship = half; "
@@ -160,16 +168,8 @@ _c("C03",
    "numpy primitives as modelled (differentially tested each run incl. the scalar-insert rule); copy.deepcopy trusted. Partial: operand_op_attached_partial / history_preserves_entities_partial / unary_op_attached_partial exclude the square (two-axis) bundles "
    "affected by the known findings D14 (square single-axis insert/incorp/concat gives a non-square matrix) and D27 (square-taxa-trait pure ops drop the other bundle's labels); DenseBreedingValueMatrix is C15's. D3, D4, D17, D28 fixed in /repo.")
 _c("C12",
-   "35 theorems (Props/C12.lean) over any field of characteristic 0 (R for Haldane): the chunked double sums tile [lst,lsp) for every step, so every cell is independent of `mem`; for the two-, three-, four-way and dihybrid schemes, ALL parent tuples "
-   "(self hybrids included) and EVERY finite selfing depth, the matrix cell equals the covariance of doubled-haploid values obtained by exhaustive enumeration of all crossover masks of all meioses of the scheme (second-moment selfing recursion proved, "
-   "so nself > 0 is a theorem, not a bounded comparison); nself = inf is the limit with explicit error term; genic matrices = free-recombination enumeration (all four classes, diagonal included); symmetry in exchangeable parents, zero for identical "
-   "parents, taxa equivariance, progeny mean, UC = mean + i*sqrt(var); with Haldane positions the code's pairwise r composes as required (eq_enum_haldane over R).",
-   "Independence of crossover indicators is C01/C02's; numpy.exp; the mirror step is modelled as a closed form; cov_D1st/D2st with t > 0 (random intermating) are correspondence-only (unused by the matrix classes). "
-   "Spec = equality with enumeration computed two ways (Lean covOf up to 13 mask bits; an independent exact Fraction enumerator in Python). D15, D30-D33 fixed in /repo (pre-repair counterexamples kept).")
+   "57 theorems (Props/C12.lean) over any field of characteristic 0 (ordered field where an order is needed; R for Haldane): the chunked double sums tile [lst,lsp) for every step (exact multiples and one-marker groups as explicit theorems), so every cell is independent of `mem`; the loops of from_algmod as written (zeros, +=, *= 0.25, mirror loop; the genic loops over numpy.empty) compute the closed forms and write every cell; for the two-, three-, four-way and dihybrid schemes, ALL parent tuples (self hybrids included) and EVERY finite selfing depth the cell equals the covariance of doubled-haploid values obtained by exhaustive enumeration of all crossover masks of all meioses (second-moment selfing recursion proved: nself > 0 is a theorem); rprob_filial / cov_D1s / cov_D2s / cov_D1st / cov_D2st closed forms for every k, monotone, geometric limit; nself = inf is the limit with explicit error term; genic matrices = free-recombination enumeration (all four classes, diagonal included); symmetry in exchangeable parents and in the trait pair, zero for identical parents, taxa equivariance, variances >= 0, progeny mean; the cross map lists exactly the (strictly) increasing tuples; every row of the UC matrix for ANY list of configurations = mean + i*sqrt(enumerated variance); with Haldane positions the code's pairwise r composes as required (eq_enum_haldane over R); Spec oracle spec_iff / spec_sound; pair_marginal justifies the pairwise oracle.",
+   'Trusted: independence of crossover indicators (C01/C02), numpy.exp, the normal pdf/ppf of the selection intensity, IEEE arithmetic as exact arithmetic to 1e-12 of the natural scale. Spec = equality with enumeration computed three ways (Lean covOf up to 11 mask bits; exact Fraction enumerator; pairwise enumerator for deep selfing / many markers / float positions). No partial theorem. D15, D30-D33 fixed in /repo (pre-repair counterexamples kept). Open finding D37: _calc_uc takes sqrt of a variance that rounding left below zero -> NaN (Float witness uc_sqrt_of_rounded_variance_counterexample; one-line patch proposed). Not covered: the four pcvmat *ProgenyGenicCovarianceMatrix classes (marked UNDER CONSTRUCTION, not constructible).')
 _c("C06",
-   "29 theorems (Props/C06.lean): the sorting optimiser's k-prefix minimises c*sum(key) over all duplicate-free selections for ANY tie order numpy's argsort may return, and is feasible; both steepest-descent hill climbers terminate (proved, not assumed) for every "
-   "evaluation function, keep soln++wrk a permutation, report the evaluation of the returned decision, and on exit no single exchange has a lexicographically smaller (cv, score); sampling is feasible iff replace=False; crossover, mutation, memetic neighbourhoods and "
-   "MutatorA/B.hillclimb (repaired row-wise form, n = k early return) preserve feasibility for every draw; hence every individual reachable through ANY history of sampling/crossover/mutation/memetic steps and arbitrary re-selection (pymoo's selection/survival) is feasible; "
-   "brute-force enumeration is complete; integer rounding stays in bounds.",
-   "pymoo's evolutionary loop and SBX/PM/bit-flip internals are not modelled: truthfulness (reported = fresh evaluation) and mutual non-domination of what the 16 optimiser classes return are relational checks (Spec in Lean on the implementation's outputs) on every run; "
-   "numpy argsort returns some sorting permutation; np.random draws inside pymoo_addon recorded through a proxy module and replayed through the model. Partial: integer_round_in_bounds_partial (SBX/PM output in [xl,xu] is pymoo's contract). D6, D34, D35 fixed in /repo.")
+   "51 theorems (Props/C06.lean): the sorting optimiser's k-prefix minimises c*sum(key) over all duplicate-free selections for ANY tie order numpy's argsort may return, is feasible, and satisfies the brute-force Spec oracle (optimum_spec_iff, sorting_spec_sound); both steepest-descent hill climbers and the older steepest-ascent copy terminate (proved, not assumed) for every evaluation function, keep soln++wrk a permutation, report the evaluation of the returned decision, and on exit no single exchange has a lexicographically smaller (cv, score) - exact comparison, every magnitude - which is exactly the Spec oracle (local_opt_spec_iff, hillclimb_spec_sound); sampling is feasible iff replace=False; crossover, mutation, memetic neighbourhoods, MutatorA/B.hillclimb and the stochastic climb preserve feasibility for every draw, hence every individual reachable through ANY history of operators and arbitrary re-selection is feasible; the Solution assembled from res.X/F/G/H of ANY final member set is truthful row by row, signed constraint values included (ga_solution_truthful, truthful_spec_iff; exact optimisers: exact_solution_truthful); non-domination oracle characterised (nondominated_spec_iff); integer operators: clamp + round-half-even stays integral and inside integer bounds for every raw value and negative bounds (integer_ops_in_bounds, full).",
+   "pymoo's evolutionary loop and SBX/PM arithmetic before the final clamp are not modelled: that each returned member carries the vectors Problem._evaluate handed over, and mutual non-domination of what the 16 optimiser classes return, are relational checks (Lean Spec on every returned Solution, c06.assemble on the recorded res arrays) on every run; NSGA-III reference directions not modelled; statelessness across calls (histories: re-assigned weights / candidate set / bounds, released problem objects, edited Solutions) is correspondence + Spec only. numpy argsort returns some sorting permutation; np.random draws inside pymoo_addon recorded through a proxy module and replayed through the model. Partial: integer_round_in_bounds_partial (bare rounding; necessity by integer_round_without_clamp_counterexample), evaluate_batch_partial (elementwise=True; D42 counterexample), hillclimb_local_opt_violation_key_partial (penalty-style constraint functions; D41 counterexample). Findings: D41 (climbers rank by the raw sum of signed constraint values), D42 (Problem._evaluate vectorised branch `v *args`), patches proposed. D6, D34, D35 fixed in /repo.")
